@@ -8,6 +8,7 @@ pub mod c05;
 pub mod c06;
 pub mod c08;
 pub mod c09;
+pub mod c10;
 pub mod c11;
 pub mod c12;
 pub mod c14;
@@ -25,6 +26,7 @@ pub fn run(id: &str, ctx: &Ctx) -> i32 {
         "C06" => c06::run(ctx),
         "C08" => c08::run(ctx),
         "C09" => c09::run(ctx),
+        "C10" => c10::run(ctx),
         "C11" => c11::run(ctx),
         "C12" => c12::run(ctx),
         "C14" => c14::run(ctx),
@@ -44,6 +46,7 @@ pub fn replay(id: &str, path: &str) -> i32 {
         "C06" => c06::replay(&v),
         "C08" => c08::replay(&v),
         "C09" => c09::replay(&v),
+        "C10" => c10::replay(&v),
         "C11" => c11::replay(&v),
         "C12" => c12::replay(&v),
         "C14" => c14::replay(&v),
